@@ -506,7 +506,16 @@ class Impl:
             members = [self.get(m) for m in rest[:i]]
             xs = [d.pt(F(t)) for t in rest[i + 1:]]
             arr = sc.StairsArray(members)
-            if o.get("top") == "1":
+            if o.get("acc") == "reuse":
+                # the pandas accessor is cached on the Series: use it, reorder the Series in place, use it again -
+                # the table must follow the Series (rows are put back into member order by their labels)
+                ser = pd.Series(members, index=list(range(len(members))), dtype="Stairs")
+                call = (lambda: ser.sc.sample(xs)) if kind == "sample" else (lambda: ser.sc.limit(xs, side=kind[5:]))
+                call()
+                ser.sort_index(ascending=False, inplace=True)
+                df = call()
+                df = df.loc[list(range(len(members)))]
+            elif o.get("top") == "1":
                 df = sc.sample(members, xs) if kind == "sample" else sc.limit(members, xs, side=kind[5:])
             elif kind == "sample":
                 df = arr.sample(xs)
